@@ -302,7 +302,7 @@ def norule_re(state):
 # ------------------------------------------------------------------------------------
 # effects of token functions and error(), by pysym on their source
 # ------------------------------------------------------------------------------------
-def function_effect(func, lexeme_re=None, is_error=False, init_type="T"):
+def function_effect(func, lexeme_re=None, is_error=False, init_type="T", extra_opts=None):
     """Runs the function body symbolically on a token whose value is an arbitrary string (of the
     rule's language).  Returns a list of path summaries:
     {outcome: 'token'|'none'|'raise', value: pysym value, pushes:[cls], pops:int, index_delta:..., exc: name}"""
@@ -379,7 +379,7 @@ def function_effect(func, lexeme_re=None, is_error=False, init_type="T"):
         except SymRaise as e:
             out["res"] = ("raise", type(e.exc).__name__ if not hasattr(e.exc, "pyclass") else e.exc.pyclass.name)
         return out
-    run = api.run(entry, opts={"float_mode": "real", "prune": True}, assumptions=assume)
+    run = api.run(entry, opts=dict({"float_mode": "real", "prune": True}, **(extra_opts or {})), assumptions=assume)
     paths = []
     for p in run.paths:
         if isinstance(p.outcome, Unsup):
